@@ -10,7 +10,7 @@
    (Lexer/OnePass.v); [closes_as_stock(b)] = the quote-aware scan ends the tag where stock ends it
    (Lexer/Restart.v).  All theorems hold for every source (no length bound) and both values of d. *)
 From Coq Require Import String.
-From DJC Require Import Lib.Base Lexer.Model Lexer.Proofs.
+From DJC Require Import Lib.Base Lexer.Model Lexer.Proofs Lexer.PatchModel Lexer.PatchProofs.
 
 (* 1. Token spans are non-empty, contiguous, start at 0, end at len(source), and concatenate to the source. *)
 Theorem spans_partition : forall d s toks, parse_template d s = POk toks ->
@@ -152,6 +152,33 @@ Theorem index_start_increases : forall d v s i off good b rest fixed,
 Proof. exact Proofs.index_start_increases. Qed.
 Print Assumptions index_start_increases.
 
+(* 8. "The PATCHED Django Template": monkeypatch_template_cls on a hierarchy of Template classes (Lexer/PatchModel.v:
+   class = own compile_nodelist / own _djc_patched flag / parent; attribute lookup and is_template_cls_patched walk
+   the parents; events = class creation with or without an own compile_nodelist, monkeypatch_template_cls(c);
+   apps.ready() = EPatch 0).
+   8a. Once a class has been handed to monkeypatch_template_cls - whatever its ancestors, whether it has its own
+   compile_nodelist, whether an ancestor was already patched, whatever happens afterwards - it compiles from
+   parse_template's stream (= spec_lex, theorem 6a) and is_template_cls_patched holds. *)
+Theorem patched_class_compiles_from_parse_template : forall h w c, c < length w -> In (EPatch c) h ->
+  compile_route (run h w) c = RPatched /\ is_patched (run h w) c = true /\
+  forall d s, compile_stream (run h w) c d s = spec_lex d s.
+Proof. exact PatchProofs.patched_class_compiles_from_parse_template. Qed.
+Print Assumptions patched_class_compiles_from_parse_template.
+
+(* 8b. Patching is local: a class never handed to monkeypatch_template_cls keeps its own attributes. *)
+Theorem never_patched_keeps_own : forall h w c k, nth_error w c = Some k -> ~ In (EPatch c) h ->
+  nth_error (run h w) c = Some k.
+Proof. exact PatchProofs.never_patched_keeps_own. Qed.
+Print Assumptions never_patched_keeps_own.
+
+(* 8c. A class without its own compile_nodelist compiles like its parent (so every subclass of a patched class that
+   does not override compile_nodelist is patched too). *)
+Theorem inherits_parent_route : forall h c k p, hist_ok h world0 = true ->
+  nth_error (run h world0) c = Some k -> ccompile k = None -> cparent k = Some p ->
+  compile_route (run h world0) c = compile_route (run h world0) p.
+Proof. exact PatchProofs.inherits_parent_route. Qed.
+Print Assumptions inherits_parent_route.
+
 (* ---------- non-vacuity ---------- *)
 (* two quoted tags, one of them multi-line and keeping a quoted percent-brace: parse_template succeeds, differs
    from stock, line numbers as expected *)
@@ -201,3 +228,14 @@ Example difference_exists :
   parse_template true s <> POk (django_lex true s) /\
   map (fun t => qstate_at (tok_body s t) (close_index t)) (django_lex true s) = [QIn 39%N; QOut].
 Proof. vm_compute. split; [discriminate|reflexivity]. Qed.
+
+(* django.setup(); class A(Template) with its own compile_nodelist; class B(A) without; monkeypatch_template_cls(A):
+   A and B compile from parse_template, all three classes report is_template_cls_patched; without the last call A
+   and B compile from the stock lexer although is_template_cls_patched(A) is already true (inherited flag) *)
+Example patch_history_example :
+  let h := [EPatch 0; ENew 0 true; ENew 1 false] in
+  hist_ok (h ++ [EPatch 1]) world0 = true /\
+  map (compile_route (run (h ++ [EPatch 1]) world0)) [0; 1; 2] = [RPatched; RPatched; RPatched] /\
+  map (compile_route (run h world0)) [0; 1; 2] = [RPatched; RStock; RStock] /\
+  map (is_patched (run h world0)) [0; 1; 2] = [true; true; true].
+Proof. vm_compute. repeat split. Qed.
